@@ -482,6 +482,6 @@ def run_bes(case, ctx):
 
 
 SUBCHECKS = {
-    "cx": Given(strategy_cx, run_cx, quick=2500, thorough=60000),
-    "bes": Given(strategy_bes, run_bes, quick=1500, thorough=40000),
+    "cx": Given(strategy_cx, run_cx, quick=2500, thorough=50000),
+    "bes": Given(strategy_bes, run_bes, quick=1500, thorough=30000),
 }
